@@ -1,3 +1,884 @@
+(* C17 - proofs about the reference compiler of Model.v.
+   Part 1: `compile_items a Ideal` (the executable spec) holds exactly the items `Declares a` names. *)
 From Coq Require Import List NArith ZArith Bool String Lia.
-From V Require Import Lib.Check C17_Compile.Model.
+From V Require Import Lib.Check Gen.Params C17_Compile.Model.
 Import ListNotations.
+
+(* ------------------------------------------------------------------ generic list facts *)
+
+Lemma nodup_b_NoDup {A} (eqb : A -> A -> bool) (Heq : forall x y, eqb x y = true <-> x = y) l :
+  nodup_b eqb l = true -> NoDup l.
+Proof.
+  induction l as [|x r IH]; cbn; intros H; [constructor|].
+  apply andb_true_iff in H as [Hn Hr]. constructor; [|auto].
+  intros Hin. apply negb_true_iff in Hn.
+  assert (E : existsb (eqb x) r = true) by (apply existsb_exists; exists x; split; [auto | apply Heq; auto]).
+  congruence.
+Qed.
+
+Lemma qname_eqb_eq (x y : qname) : qname_eqb x y = true <-> x = y.
+Proof.
+  destruct x as [a b], y as [c d]; unfold qname_eqb; cbn.
+  rewrite andb_true_iff, !String.eqb_eq. split; [intros [-> ->]; auto | intros E; inversion E; auto].
+Qed.
+
+Lemma in_all_ws a p w : In (p, w) (all_ws a) <-> In_ws a p w.
+Proof.
+  unfold all_ws, In_ws. rewrite in_flat_map. split.
+  - intros (p' & Hp & Hin). apply in_map_iff in Hin as (w' & E & Hw). inversion E; subst. auto.
+  - intros [Hp Hw]. exists p. split; auto. apply in_map. auto.
+Qed.
+
+(* ------------------------------------------------------------------ nested tables *)
+
+(* induction over tables through the nested item lists *)
+Lemma table_ind' (P : table -> Prop) :
+  (forall n ab inh its, (forall c t, In (TNested c t) its -> P t) -> P (Table n ab inh its)) ->
+  forall t, P t.
+Proof.
+  intros H. fix IH 1. intros [n ab inh its]. apply H.
+  induction its as [|it r IHr]; intros c t Hin; [destruct Hin|].
+  destruct it as [f | fn refs nn | c' t' | cn fs].
+  1, 2, 4: (destruct Hin as [E | Hin]; [discriminate | eapply IHr; eauto]).
+  destruct Hin as [E | Hin]; [|eapply IHr; eauto].
+  injection E as E1 E2. rewrite <- E2. apply IH.
+Qed.
+
+Fixpoint nested_go (l : list titem) : list table :=
+  match l with
+  | [] => []
+  | TNested _ t' :: r => t' :: nested_tables t' ++ nested_go r
+  | _ :: r => nested_go r
+  end.
+
+Lemma nested_tables_eq t : nested_tables t = nested_go (t_items t).
+Proof.
+  destruct t as [n ab inh its]. reflexivity.
+Qed.
+
+Lemma in_nested_go l t' :
+  In t' (nested_go l) <-> exists c t1, In (TNested c t1) l /\ (t' = t1 \/ In t' (nested_tables t1)).
+Proof.
+  induction l as [|it r IH]; cbn.
+  - split; [tauto | intros (c & t1 & [] & _)].
+  - destruct it as [f | n refs nn | c0 t0 | cn fs]; cbn;
+      try (rewrite IH; split; [intros (c & t1 & Hin & H); exists c, t1; auto
+                              | intros (c & t1 & [E | Hin] & H); [discriminate | exists c, t1; auto]]).
+    rewrite in_app_iff, IH. split.
+    + intros [E | [Hn | (c & t1 & Hin & H)]].
+      * exists c0, t0. split; [left; auto | left; auto].
+      * exists c0, t0. auto.
+      * exists c, t1. auto.
+    + intros (c & t1 & [E | Hin] & H).
+      * inversion E; subst. destruct H; auto.
+      * right. right. exists c, t1. auto.
+Qed.
+
+Lemma nested_tables_Nested t t' : In t' (nested_tables t) <-> Nested t t'.
+Proof.
+  revert t'. induction t as [n ab inh its IH] using table_ind'. intros t'.
+  rewrite nested_tables_eq. cbn [t_items]. rewrite in_nested_go. split.
+  - intros (c & t1 & Hin & [E | H]).
+    + subst. eapply N_direct. cbn. eauto.
+    + eapply N_deep; [cbn; eauto|]. eapply IH; eauto.
+  - intros H. inversion H as [t0 c t1 Hin E1 E2 | t0 c t1 t2 Hin Hn E1 E2]; subst; cbn in Hin.
+    + exists c, t'. auto.
+    + exists c, t1. split; auto. right. eapply IH; eauto.
+Qed.
+
+(* ------------------------------------------------------------------ inheritance chains *)
+
+Section Chains.
+Variable a : schema.
+
+Lemma chain_eq fuel pn t :
+  chain a fuel pn t =
+  match t_inh t with
+  | None => None
+  | Some q =>
+    if (fst (resolve pn q) =? "sys")%string then
+      match sysbase_of (snd (resolve pn q)) with Some b => Some (b, [(pn, t_items t)]) | None => None end
+    else match fuel with
+         | O => None
+         | S f => match lookup_table a (resolve pn q) with
+                  | Some t' => match chain a f (fst (resolve pn q)) t' with
+                               | Some (b, ls) => Some (b, ls ++ [(pn, t_items t)])
+                               | None => None
+                               end
+                  | None => None
+                  end
+         end
+  end.
+Proof. destruct fuel; reflexivity. Qed.
+
+Lemma chain_sound fuel : forall pn t b ls, chain a fuel pn t = Some (b, ls) -> Chain a pn t b ls.
+Proof.
+  induction fuel as [|f IH]; intros pn t b ls H; rewrite chain_eq in H;
+    destruct (t_inh t) as [q|] eqn:Ei; try discriminate;
+    destruct (fst (resolve pn q) =? "sys")%string eqn:Es.
+  - destruct (sysbase_of (snd (resolve pn q))) eqn:Eb; [|discriminate]. inversion H; subst.
+    eapply Ch_sys; eauto. apply String.eqb_eq; auto.
+  - discriminate.
+  - destruct (sysbase_of (snd (resolve pn q))) eqn:Eb; [|discriminate]. inversion H; subst.
+    eapply Ch_sys; eauto. apply String.eqb_eq; auto.
+  - destruct (lookup_table a (resolve pn q)) as [t'|] eqn:El; [|discriminate].
+    destruct (chain a f (fst (resolve pn q)) t') as [[b' ls']|] eqn:Ec; [|discriminate].
+    inversion H; subst. eapply Ch_user; eauto. apply String.eqb_neq; auto.
+Qed.
+
+(* the relation is functional, and whenever the function answers it answers the relation's value *)
+Lemma chain_complete : forall pn t b ls, Chain a pn t b ls ->
+  forall fuel r, chain a fuel pn t = Some r -> r = (b, ls).
+Proof.
+  intros pn t b ls HC. induction HC as [pn t q b Ei Es Eb | pn t q t' b ls Ei Es El HC IH]; intros fuel r H;
+    rewrite chain_eq, Ei in H.
+  - rewrite (proj2 (String.eqb_eq _ _) Es), Eb in H. inversion H; auto.
+  - rewrite (proj2 (String.eqb_neq _ _) Es) in H.
+    destruct fuel as [|f]; [discriminate|].
+    rewrite El in H. destruct (chain a f (fst (resolve pn q)) t') as [[b' ls']|] eqn:Ec; [|discriminate].
+    specialize (IH _ _ Ec). inversion IH; subst. congruence.
+Qed.
+
+Lemma Chain_own_last pn t b ls : Chain a pn t b ls -> exists ls', ls = ls' ++ [(pn, t_items t)].
+Proof. intros H; destruct H; [exists []; auto | eexists; eauto]. Qed.
+
+(* ---- workspace ancestors ---- *)
+
+Definition anc_step (f : nat) (pn : ident) (q : qref) (acc : option (list qname)) : option (list qname) :=
+  match acc, lookup_ws a (resolve pn q) with
+  | Some l, Some (p', w') =>
+    match ws_anc a f (p_name p') (w_inh w') with
+    | Some l' => Some (l' ++ resolve pn q :: l)
+    | None => None
+    end
+  | _, _ => None
+  end.
+
+Lemma ws_anc_S f pn inh : inh <> [] -> ws_anc a (S f) pn inh = fold_right (anc_step f pn) (Some []) inh.
+Proof. destruct inh; [congruence | reflexivity]. Qed.
+
+Lemma fold_anc_in f pn inh l x :
+  fold_right (anc_step f pn) (Some []) inh = Some l ->
+  (In x l <-> exists q, In q inh /\ (x = resolve pn q \/
+     exists p' w' l', lookup_ws a (resolve pn q) = Some (p', w') /\ ws_anc a f (p_name p') (w_inh w') = Some l' /\ In x l')).
+Proof.
+  revert l. induction inh as [|q r IH]; cbn; intros l H.
+  - inversion H; subst. split; [intros [] | intros (q & [] & _)].
+  - unfold anc_step at 1 in H.
+    destruct (fold_right (anc_step f pn) (Some []) r) as [lr|] eqn:Er; [|discriminate].
+    destruct (lookup_ws a (resolve pn q)) as [[p' w']|] eqn:El; [|discriminate].
+    destruct (ws_anc a f (p_name p') (w_inh w')) as [l'|] eqn:Ea; [|discriminate].
+    inversion H; subst. specialize (IH _ eq_refl). rewrite in_app_iff. cbn [In]. split.
+    + intros [Hx | [Hx | Hx]].
+      * exists q. split; auto. right. exists p', w', l'. auto.
+      * exists q. auto.
+      * apply IH in Hx as (q0 & Hq & Hx). exists q0. auto.
+    + intros (q0 & [E | Hq] & Hx).
+      * subst q0. destruct Hx as [-> | (p2 & w2 & l2 & El2 & Ea2 & Hx)]; auto.
+        rewrite El in El2. inversion El2; subst. rewrite Ea in Ea2. inversion Ea2; subst. auto.
+      * right. right. apply IH. exists q0. auto.
+Qed.
+
+Lemma ws_anc_sound fuel : forall pn inh l x, ws_anc a fuel pn inh = Some l -> In x l -> Anc a pn inh x.
+Proof.
+  induction fuel as [|f IH]; intros pn inh l x H Hx.
+  - destruct inh; cbn in H; [inversion H; subst; destruct Hx | discriminate].
+  - destruct inh as [|q0 r] eqn:Ei; [cbn in H; inversion H; subst; destruct Hx|].
+    rewrite <- Ei in *. rewrite ws_anc_S in H by (subst; discriminate).
+    apply (fold_anc_in _ _ _ _ x) in H. apply H in Hx as (q & Hq & [-> | (p' & w' & l' & El & Ea & Hx)]).
+    + apply Anc_direct; auto.
+    + eapply Anc_trans; eauto.
+Qed.
+
+Lemma ws_anc_complete : forall pn inh x, Anc a pn inh x ->
+  forall fuel l, ws_anc a fuel pn inh = Some l -> In x l.
+Proof.
+  intros pn inh x HA. induction HA as [pn inh q Hq | pn inh q p' w' x Hq El HA IH]; intros fuel l H.
+  - destruct fuel as [|f]; [destruct inh; [destruct Hq | discriminate]|].
+    rewrite ws_anc_S in H by (intros ->; destruct Hq).
+    apply (fold_anc_in _ _ _ _ (resolve pn q)) in H. apply H. exists q. auto.
+  - destruct fuel as [|f]; [destruct inh; [destruct Hq | discriminate]|].
+    rewrite ws_anc_S in H by (intros ->; destruct Hq).
+    pose proof H as H0. apply (fold_anc_in _ _ _ _ x) in H. apply H. exists q. split; auto. right.
+    (* the fold succeeded, so the ancestor list of q's workspace was computed *)
+    assert (exists l', ws_anc a f (p_name p') (w_inh w') = Some l') as (l' & Ea).
+    { clear H IH HA. revert l H0. induction inh as [|q1 r IHr]; [destruct Hq|]. intros l H0. cbn in H0.
+      unfold anc_step at 1 in H0.
+      destruct (fold_right (anc_step f pn) (Some []) r) as [lr|] eqn:Er; [|discriminate].
+      destruct Hq as [E | Hq].
+      - subst q1. rewrite El in H0. destruct (ws_anc a f (p_name p') (w_inh w')); [eauto | discriminate].
+      - eapply IHr; eauto. }
+    exists p', w', l'. split; auto. split; auto. eapply IH; eauto.
+Qed.
+
+End Chains.
+
+(* ------------------------------------------------------------------ soundness / completeness *)
+
+Section Exact.
+Variable a : schema.
+
+(* every INHERITS list of a workspace resolves (part of `wf`) *)
+Definition anc_ok : Prop :=
+  forall p w, In_ws a p w -> ws_anc a (fuelw a) (p_name p) (w_inh w) <> None.
+(* every table that is compiled has a chain (part of `wf`) *)
+Definition chains_ok : Prop :=
+  forall p w t, In_ws a p w -> In (ITable t) (w_items w) ->
+    chain a (fuel0 a) (p_name p) t <> None /\
+    forall t', In t' (nested_tables t) -> t_inh t' <> None -> chain a (fuel0 a) (p_name p) t' <> None.
+
+Lemma repeat_list_1 {A} (l : list A) : repeat_list l 1 = l.
+Proof. cbn. apply app_nil_r. Qed.
+
+Lemma ancestors_spec p w : In_ws a p w -> anc_ok -> forall x, In x (ws_ancestors a p w) <-> AncSpec a p w x.
+Proof.
+  intros Hw Hok x. unfold ws_ancestors, AncSpec, anc_list. specialize (Hok p w Hw).
+  destruct (w_inh w) as [|q r] eqn:Ei.
+  - cbn. split; [intros [E | []]; auto | intros ->; auto].
+  - destruct (ws_anc a (fuelw a) (p_name p) (q :: r)) as [l|] eqn:Ea; [|congruence]. split.
+    + intros Hx. eapply ws_anc_sound; eauto.
+    + intros HA. eapply ws_anc_complete; eauto.
+Qed.
+
+Lemma nested_lists_spec pn t' :
+  (t_inh t' <> None -> chain a (fuel0 a) pn t' <> None) -> NestedLists a pn t' (nested_lists a Ideal pn t').
+Proof.
+  intros Hc. unfold nested_lists. destruct (t_inh t') eqn:Ei.
+  - destruct (chain a (fuel0 a) pn t') as [[b ls]|] eqn:Ec.
+    + eapply NL_inh. eapply chain_sound; eauto.
+    + exfalso. apply Hc; congruence.
+  - apply NL_plain; auto.
+Qed.
+
+Theorem compile_sound_proved : anc_ok -> chains_ok ->
+  forall it, In it (compile_items a Ideal) -> Declares a it.
+Proof.
+  intros Hanc Hch it Hin. unfold compile_items in Hin. apply in_flat_map in Hin as ([p w] & Hpw & Hin).
+  apply in_all_ws in Hpw. cbn [fst snd] in Hin. unfold ws_items in Hin.
+  destruct Hin as [E | Hin].
+  - subst it. unfold ws_item. cbn [acl_repeat]. rewrite repeat_list_1.
+    apply D_ws; auto. apply ancestors_spec; auto.
+  - apply in_app_iff in Hin as [Hin | Hin].
+    + destruct (w_abstract w) eqn:Ea; [destruct Hin|]. destruct Hin as [E | []]. subst. apply D_desc; auto.
+    + apply in_flat_map in Hin as (i & Hi & Hin).
+      destruct i as [t | n ys | v | x | f | n pub | r | l | g | n]; cbn in Hin;
+        try (destruct Hin as [E | []]; subst it).
+      * unfold table_items in Hin. destruct (Hch p w t Hpw Hi) as [Hc Hn].
+        destruct (chain a (fuel0 a) (p_name p) t) as [[b ls]|] eqn:Ec; [|congruence].
+        apply chain_sound in Ec. destruct Hin as [E | Hin].
+        -- subst. eapply D_table; eauto.
+        -- apply in_map_iff in Hin as (t' & E & Ht'). subst.
+           eapply D_nested; eauto. apply nested_tables_Nested; auto. apply nested_lists_spec. auto.
+      * eapply D_type; eauto.
+      * eapply D_view; eauto.
+      * eapply D_proj; eauto.
+      * eapply D_func; eauto.
+      * eapply D_role; eauto.
+      * eapply D_rate; eauto.
+      * eapply D_limit; eauto.
+      * destruct Hin.
+      * destruct Hin.
+Qed.
+
+Lemma in_compile_ws m p w it : In_ws a p w -> In it (ws_items a m p w) -> In it (compile_items a m).
+Proof.
+  intros Hw Hin. unfold compile_items. apply in_flat_map. exists (p, w). split; [apply in_all_ws; auto | auto].
+Qed.
+
+Lemma in_compile_stmt m p w i it :
+  In_ws a p w -> In i (w_items w) -> In it (stmt_items a m (p_name p) (p_name p, w_name w) i) -> In it (compile_items a m).
+Proof.
+  intros Hw Hi Hin. eapply in_compile_ws; eauto. unfold ws_items. right. apply in_app_iff. right.
+  apply in_flat_map. eauto.
+Qed.
+
+Lemma item_equiv_refl it : item_equiv it it.
+Proof. destruct it; cbn; auto. repeat split; auto. Qed.
+
+Theorem compile_complete_proved : anc_ok -> chains_ok ->
+  forall it, Declares a it -> exists it', In it' (compile_items a Ideal) /\ item_equiv it it'.
+Proof.
+  intros Hanc Hch it HD.
+  destruct HD as [p w anc Hw Hanc' | p w Hw Hab | p w t b ls Hw Hi HC | p w t b ls t' ls' Hw Hi HC HN HL
+                  | p w n ys Hw Hi | p w v Hw Hi | p w x Hw Hi | p w f Hw Hi | p w n pub Hw Hi | p w r Hw Hi | p w l Hw Hi];
+    try (eexists; split; [eapply in_compile_stmt; eauto; cbn; left; reflexivity | apply item_equiv_refl]).
+  - exists (ws_item a Ideal p w). split.
+    + eapply in_compile_ws; eauto. left; auto.
+    + unfold ws_item. cbn [acl_repeat]. rewrite repeat_list_1. cbn. repeat split; auto.
+      * intros Hx. apply ancestors_spec; auto. apply Hanc'; auto.
+      * intros Hx. apply Hanc'. apply ancestors_spec; auto.
+  - eexists. split; [|apply item_equiv_refl]. eapply in_compile_ws; eauto. unfold ws_items. right.
+    apply in_app_iff. left. rewrite Hab. left; auto.
+  - destruct (Hch p w t Hw Hi) as [Hc _].
+    destruct (chain a (fuel0 a) (p_name p) t) as [r|] eqn:Ec; [|congruence].
+    pose proof (chain_complete a _ _ _ _ HC _ _ Ec) as ->.
+    eexists. split; [|apply item_equiv_refl]. eapply in_compile_stmt; eauto. cbn. unfold table_items. rewrite Ec. left; auto.
+  - destruct (Hch p w t Hw Hi) as [Hc Hn].
+    destruct (chain a (fuel0 a) (p_name p) t) as [r|] eqn:Ec; [|congruence].
+    pose proof (chain_complete a _ _ _ _ HC _ _ Ec) as ->.
+    apply nested_tables_Nested in HN.
+    assert (El : nested_lists a Ideal (p_name p) t' = ls').
+    { unfold nested_lists. destruct HL as [Ei | b' ls' HC'].
+      - rewrite Ei. auto.
+      - assert (Ei : t_inh t' <> None) by (destruct HC'; congruence).
+        specialize (Hn t' HN Ei). destruct (t_inh t'); [|congruence].
+        destruct (chain a (fuel0 a) (p_name p) t') as [r'|] eqn:Ec'; [|congruence].
+        pose proof (chain_complete a _ _ _ _ HC' _ _ Ec') as ->. auto. }
+    eexists. split; [|apply item_equiv_refl]. eapply in_compile_stmt; eauto. cbn. unfold table_items. rewrite Ec.
+    right. apply in_map_iff. exists t'. split; auto. rewrite El. auto.
+Qed.
+
+End Exact.
+
+(* ------------------------------------------------------------------ what `wf` provides *)
+
+Section Wf.
+Variable a : schema.
+Hypothesis Hwf : wf a = true.
+
+Lemma wf_parts :
+  NoDup (map item_key (compile_items a Ideal)) /\ forallb (fun pw => ws_ok a (fst pw) (snd pw)) (all_ws a) = true
+  /\ no_unique_collision a Ideal = true.
+Proof.
+  pose proof Hwf as H. unfold wf in H. rewrite !andb_true_iff in H.
+  destruct H as [[[[[[_ _] _] Hkeys] _] Hu] Hws]. split; [|split; auto].
+  eapply nodup_b_NoDup; [apply qname_eqb_eq | eauto].
+Qed.
+
+Lemma wf_ws_ok p w : In_ws a p w -> ws_ok a p w = true.
+Proof.
+  intros Hin. destruct wf_parts as (_ & Hws & _). rewrite forallb_forall in Hws.
+  apply in_all_ws in Hin. apply (Hws _ Hin).
+Qed.
+
+Lemma wf_keys_nodup : NoDup (map item_key (compile_items a Ideal)).
+Proof. apply wf_parts. Qed.
+
+Lemma ws_ok_parts p w : ws_ok a p w = true ->
+  ws_anc a (fuelw a) (p_name p) (w_inh w) <> None /\ forallb (stmt_ok a p w) (w_items w) = true.
+Proof.
+  unfold ws_ok. rewrite !andb_true_iff. intros [[[[[[[Hanc _] _] _] _] _] _] Hst]. split; auto.
+  destruct (ws_anc a (fuelw a) (p_name p) (w_inh w)); discriminate.
+Qed.
+
+Lemma wf_anc_ok : anc_ok a.
+Proof. intros p w Hin. apply ws_ok_parts. apply wf_ws_ok; auto. Qed.
+
+Lemma wf_chains_ok : chains_ok a.
+Proof.
+  intros p w t Hin Hi. destruct (ws_ok_parts p w (wf_ws_ok p w Hin)) as [_ Hst].
+  rewrite forallb_forall in Hst. specialize (Hst _ Hi). cbn in Hst. unfold table_ok in Hst.
+  apply andb_true_iff in Hst as [_ Hst].
+  destruct (chain a (fuel0 a) (p_name p) t) as [[b ls]|] eqn:Ec; [|discriminate].
+  split; [discriminate|]. intros t' Ht' Hinh.
+  rewrite !andb_true_iff in Hst. destruct Hst as [[_ _] Hnest].
+  rewrite forallb_forall in Hnest. specialize (Hnest _ Ht'). unfold nested_ok in Hnest.
+  rewrite !andb_true_iff in Hnest. destruct Hnest as [[[_ Hc] _] _].
+  destruct (t_inh t'); [|congruence]. apply andb_true_iff in Hc as [_ Hc].
+  destruct (chain a (fuel0 a) (p_name p) t'); discriminate.
+Qed.
+
+(* Theorems of part 1 under the single hypothesis `wf a = true` *)
+Theorem wf_compile_sound it : In it (compile_items a Ideal) -> Declares a it.
+Proof. apply compile_sound_proved; [apply wf_anc_ok | apply wf_chains_ok]. Qed.
+
+Theorem wf_compile_complete it : Declares a it -> exists it', In it' (compile_items a Ideal) /\ item_equiv it it'.
+Proof. apply compile_complete_proved; [apply wf_anc_ok | apply wf_chains_ok]. Qed.
+
+Lemma item_equiv_key i j : item_equiv i j -> item_key i = item_key j.
+Proof.
+  destruct i, j; cbn; try (intros E; inversion E; reflexivity); try (intros E; discriminate).
+  intros (E & _); auto.
+Qed.
+
+Lemma item_equiv_sym i j : item_equiv i j -> item_equiv j i.
+Proof.
+  destruct i, j; cbn; try (intros E; inversion E; reflexivity); try (intros E; discriminate).
+  intros (-> & -> & Hs & -> & -> & ->). repeat split; auto; intros; apply Hs; auto.
+Qed.
+
+Lemma item_equiv_trans i j k : item_equiv i j -> item_equiv j k -> item_equiv i k.
+Proof.
+  destruct i, j; cbn; try (intros E; inversion E; subst; auto; fail); try (intros E; discriminate).
+  intros (-> & -> & Hs & -> & -> & ->). destruct k; cbn; try (intros E; discriminate); auto.
+  intros (-> & -> & Hs' & -> & -> & ->). repeat split; auto; intros.
+  - apply Hs', Hs; auto.
+  - apply Hs, Hs'; auto.
+Qed.
+
+Lemma NoDup_map_inj {A B} (f : A -> B) l x y : NoDup (map f l) -> In x l -> In y l -> f x = f y -> x = y.
+Proof.
+  induction l as [|z r IH]; cbn; intros Hn Hx Hy E; [destruct Hx|].
+  inversion Hn as [|? ? Hnot Hr]; subst. destruct Hx as [-> | Hx], Hy as [-> | Hy]; auto.
+  - exfalso. apply Hnot. rewrite E. apply in_map; auto.
+  - exfalso. apply Hnot. rewrite <- E. apply in_map; auto.
+Qed.
+
+(* nothing is declared twice: two declared items with one name are the same item *)
+Theorem wf_declared_once i j : Declares a i -> Declares a j -> item_key i = item_key j -> item_equiv i j.
+Proof.
+  intros Hi Hj E.
+  apply wf_compile_complete in Hi as (i' & Hi' & Ei). apply wf_compile_complete in Hj as (j' & Hj' & Ej).
+  assert (i' = j').
+  { eapply NoDup_map_inj; [apply wf_keys_nodup | auto | auto |].
+    rewrite <- (item_equiv_key _ _ Ei), <- (item_equiv_key _ _ Ej). auto. }
+  subst. eapply item_equiv_trans; eauto. apply item_equiv_sym; auto.
+Qed.
+
+End Wf.
+
+(* field order: system fields, then the inherited ones (ancestors first), then the declared ones,
+   each list in declaration order *)
+Theorem struct_field_order a m pn wq t k sg b ls :
+  Chain a pn t b ls ->
+  exists inherited,
+    ls = inherited ++ [(pn, t_items t)] /\
+    struct_item m pn wq t k sg ls =
+    ItStruct (pn, t_name t) k wq (t_abstract t) sg
+             (sys_fields k ++ flat_map fields_of inherited ++ fields_of (pn, t_items t))
+             (flat_map conts_of inherited ++ conts_of (pn, t_items t)) (uniqs_chain m ls).
+Proof.
+  intros HC. destruct (Chain_own_last a _ _ _ _ HC) as (inh & ->). exists inh. split; auto.
+  unfold struct_item. rewrite !flat_map_app. cbn [flat_map]. rewrite !app_nil_r. reflexivity.
+Qed.
+
+(* declaration order is kept: the compiled user fields of one item list are its field and
+   reference items, in order, nothing else *)
+Lemma fields_of_names l : map fd_name (fields_of l) =
+  flat_map (fun it => match it with TField f => [f_name f] | TRef n _ _ => [n] | _ => [] end) (snd l).
+Proof.
+  unfold fields_of. induction (snd l) as [|it r IH]; cbn; auto.
+  rewrite map_app, IH. f_equal. destruct it as [f | n refs nn | c t | cn fs]; cbn; auto.
+  unfold fd_of_field. destruct (f_type f); reflexivity.
+Qed.
+
+(* ------------------------------------------------------------------ part 2: the Go model against the spec *)
+
+(* the Go model's item `g` against the spec's item `i`: identical, except that the ACL of a
+   workspace is the declared block repeated *)
+Definition item_ok (i g : item) : Prop :=
+  match i, g with
+  | ItWs q ab anc d u acl, ItWs q' ab' anc' d' u' acl' =>
+    q = q' /\ ab = ab' /\ anc = anc' /\ d = d' /\ u = u' /\ exists k, acl' = repeat_list acl (S k)
+  | _, _ => i = g
+  end.
+
+Lemma item_ok_refl i : item_ok i i.
+Proof. destruct i; cbn; auto. repeat split; auto. exists O. cbn. rewrite app_nil_r. auto. Qed.
+
+Lemma Forall2_refl {A} (R : A -> A -> Prop) (Hr : forall x, R x x) l : Forall2 R l l.
+Proof. induction l; constructor; auto. Qed.
+
+Lemma Forall2_flat_map {A B} (R : B -> B -> Prop) (f g : A -> list B) l :
+  (forall x, In x l -> Forall2 R (f x) (g x)) -> Forall2 R (flat_map f l) (flat_map g l).
+Proof.
+  induction l as [|x r IH]; cbn; intros H; [constructor|].
+  apply Forall2_app; [apply H; auto | apply IH; intros; apply H; auto].
+Qed.
+
+(* ---- unique constraint names ---- *)
+
+Lemma uniqs_from_no_unnamed its : count_unnamed its = 0%N -> forall c, uniqs_from c its = uniqs_from 0 its.
+Proof.
+  unfold count_unnamed. induction its as [|it r IH]; cbn; intros H c; auto.
+  destruct it as [f | n refs nn | cn t | [cn|] fs]; cbn in *; auto.
+  - f_equal. auto.
+  - lia.
+Qed.
+
+Lemma uniqs_from_has_01 its : count_unnamed its <> 0%N -> In "01"%string (map ud_name (uniqs_from 0 its)).
+Proof.
+  unfold count_unnamed. induction its as [|it r IH]; cbn; intros H; [congruence|].
+  destruct it as [f | n refs nn | cn t | [cn|] fs]; cbn in *; auto.
+Qed.
+
+Lemma NoDup_app_disjoint {A} (l1 l2 : list A) x : NoDup (l1 ++ l2) -> In x l1 -> In x l2 -> False.
+Proof.
+  induction l1 as [|y r IH]; cbn; intros Hn H1 H2; [destruct H1|].
+  inversion Hn as [|? ? Hnot Hr]; subst. destruct H1 as [-> | H1].
+  - apply Hnot. apply in_app_iff; auto.
+  - eauto.
+Qed.
+
+Lemma NoDup_app_r {A} (l1 l2 : list A) : NoDup (l1 ++ l2) -> NoDup l2.
+Proof. induction l1; cbn; auto. intros H; inversion H; auto. Qed.
+
+Lemma uniqs_run_eq ls : forall c,
+  (c = 0%N \/ Forall (fun l => count_unnamed (snd l) = 0%N) ls) ->
+  NoDup (map ud_name (flat_map uniqs_of ls)) -> uniqs_run c ls = flat_map uniqs_of ls.
+Proof.
+  induction ls as [|l r IH]; cbn; intros c Hc Hn; auto.
+  rewrite map_app in Hn. unfold uniqs_of at 1.
+  destruct (N.eq_dec (count_unnamed (snd l)) 0) as [E0 | Ne0].
+  - rewrite (uniqs_from_no_unnamed _ E0 c). f_equal. rewrite E0, N.add_0_r. apply IH.
+    + destruct Hc as [-> | Hf]; auto. right. inversion Hf; auto.
+    + eapply NoDup_app_r; eauto.
+  - assert (Hr : Forall (fun l0 => count_unnamed (snd l0) = 0%N) r).
+    { apply Forall_forall. intros l' Hl'. destruct (N.eq_dec (count_unnamed (snd l')) 0) as [|Ne]; auto.
+      exfalso. eapply (NoDup_app_disjoint _ _ "01"%string Hn).
+      - apply uniqs_from_has_01; auto.
+      - apply in_map_iff. apply uniqs_from_has_01 in Ne. apply in_map_iff in Ne as (u & Eu & Hu).
+        exists u. split; auto. apply in_flat_map. exists l'. auto. }
+    destruct Hc as [-> | Hf]; [|inversion Hf; congruence].
+    f_equal. apply IH; [right; auto | eapply NoDup_app_r; eauto].
+Qed.
+
+Lemma uniqs_chain_eq m ls :
+  m_uniq_per_type m = true \/ NoDup (map ud_name (flat_map uniqs_of ls)) -> uniqs_chain Ideal ls = uniqs_chain m ls.
+Proof.
+  intros H. unfold uniqs_chain. cbn [m_uniq_per_type Ideal]. destruct (m_uniq_per_type m); auto.
+  destruct H as [H | H]; [discriminate|]. apply uniqs_run_eq; auto.
+Qed.
+
+Lemma struct_item_eq m pn wq t k sg ls :
+  m_uniq_per_type m = true \/ uniq_names_ok (struct_item m pn wq t k sg ls) = true ->
+  struct_item Ideal pn wq t k sg ls = struct_item m pn wq t k sg ls.
+Proof.
+  intros H. unfold struct_item in *. f_equal. apply uniqs_chain_eq.
+  destruct H as [H | H]; [left; auto|]. destruct (m_uniq_per_type m) eqn:E; [left; auto | right].
+  cbn in H. unfold uniqs_chain in H. rewrite E in H.
+  eapply nodup_b_NoDup; [apply String.eqb_eq | eauto].
+Qed.
+
+(* ---- views ---- *)
+
+Definition vitem_plain (x : vitem) : bool := match x with VRef _ (_ :: _) _ => false | _ => true end.
+
+Lemma vfd_key_eq pn part i : vitem_plain i = true -> vfd_key true pn part i = vfd_key false pn part i.
+Proof. destruct i as [n ty nn | n [|r rs] nn]; cbn; auto; discriminate. Qed.
+Lemma vfd_val_eq pn i : vitem_plain i = true -> vfd_val true pn i = vfd_val false pn i.
+Proof. destruct i as [n ty nn | n [|r rs] nn]; cbn; auto; discriminate. Qed.
+
+Lemma view_item_eq pn wq v : forallb vitem_plain (v_items v) = true -> view_item true pn wq v = view_item false pn wq v.
+Proof.
+  intros H. rewrite forallb_forall in H. unfold view_item.
+  assert (Hk : forall part l, flat_map (fun n => map (vfd_key true pn part) (opt_list (find_vitem v n))) l
+                              = flat_map (fun n => map (vfd_key false pn part) (opt_list (find_vitem v n))) l).
+  { intros part l. induction l as [|n r IH]; cbn; auto. f_equal; auto.
+    unfold find_vitem. destruct (find (fun i => vitem_name i =? n)%string (v_items v)) as [i|] eqn:Ef; cbn; auto.
+    apply find_some in Ef as [Hin _]. rewrite vfd_key_eq; auto. }
+  rewrite !Hk. f_equal. f_equal. apply map_ext_in. intros i Hi. apply filter_In in Hi as [Hi _].
+  apply vfd_val_eq; auto.
+Qed.
+
+Section GoVsIdeal.
+Variable a : schema.
+Variable m : mode.
+(* at each of the three points the compiler either does what the spec does, or the schema stays
+   clear of the shape on which the two differ *)
+Hypothesis Hcoll : m_uniq_per_type m = true \/ no_unique_collision a m = true.
+Hypothesis Hnest : m_nested_inherit m = true \/ no_nested_user_inherit a = true.
+Hypothesis Hview : m_view_refs m = true \/ no_view_ref_targets a = true.
+
+Lemma go_item_uniq_ok it : In it (compile_items a m) -> m_uniq_per_type m = true \/ uniq_names_ok it = true.
+Proof.
+  intros Hin. destruct Hcoll as [H | H]; [left; auto | right].
+  unfold no_unique_collision in H. rewrite forallb_forall in H. auto.
+Qed.
+
+Lemma nested_lists_eq p w t t' :
+  In (p, w) (all_ws a) -> In (ITable t) (w_items w) -> In t' (nested_tables t) ->
+  nested_lists a Ideal (p_name p) t' = nested_lists a m (p_name p) t'.
+Proof.
+  intros Hpw Hi Ht'. unfold nested_lists. cbn [m_nested_inherit Ideal].
+  destruct (m_nested_inherit m) eqn:Em; auto. destruct Hnest as [H | H]; [discriminate|].
+  unfold no_nested_user_inherit in H. rewrite forallb_forall in H.
+  specialize (H _ Hpw). cbn [fst snd] in H. rewrite forallb_forall in H.
+  assert (Hr : In t (ws_roots w)) by (unfold ws_roots; apply in_flat_map; exists (ITable t); cbn; auto).
+  specialize (H _ Hr). rewrite forallb_forall in H. specialize (H _ Ht').
+  rewrite chain_eq. destruct (t_inh t') as [q|] eqn:Ei; auto.
+  rewrite H. destruct (sysbase_of (snd (resolve (p_name p) q))); auto.
+Qed.
+
+Lemma stmt_items_ok p w i :
+  In (p, w) (all_ws a) -> In i (w_items w) ->
+  Forall2 item_ok (stmt_items a Ideal (p_name p) (p_name p, w_name w) i) (stmt_items a m (p_name p) (p_name p, w_name w) i).
+Proof.
+  intros Hpw Hi. assert (Hw : In_ws a p w) by (apply in_all_ws; auto).
+  destruct i as [t | n ys | v | x | f | n pub | r | l | g | n]; cbn [stmt_items];
+    try (apply Forall2_refl; apply item_ok_refl).
+  - (* tables *)
+    assert (Hgo : forall it, In it (table_items a m (p_name p) (p_name p, w_name w) t) ->
+                             m_uniq_per_type m = true \/ uniq_names_ok it = true).
+    { intros it Hit. apply go_item_uniq_ok. eapply in_compile_stmt; eauto. }
+    unfold table_items in *. destruct (chain a (fuel0 a) (p_name p) t) as [[b ls]|]; [|constructor].
+    constructor.
+    + rewrite (struct_item_eq m); [apply item_ok_refl | apply Hgo; left; auto].
+    + assert (Hn : forall t', In t' (nested_tables t) ->
+                   m_uniq_per_type m = true \/
+                   uniq_names_ok (struct_item m (p_name p) (p_name p, w_name w) t' (nested_kind (base_kind b)) false
+                                              (nested_lists a m (p_name p) t')) = true).
+      { intros t' Ht'. apply Hgo. right. apply in_map_iff. exists t'. auto. }
+      assert (Hl : forall t', In t' (nested_tables t) -> nested_lists a Ideal (p_name p) t' = nested_lists a m (p_name p) t')
+        by (intros; eapply nested_lists_eq; eauto).
+      revert Hn Hl. generalize (nested_tables t) as nt.
+      induction nt as [|t' r IH]; intros Hn Hl; cbn [map]; constructor.
+      * rewrite Hl by (left; auto). rewrite (struct_item_eq m); [apply item_ok_refl | apply Hn; left; auto].
+      * apply IH; intros; [apply Hn | apply Hl]; right; auto.
+  - (* views *)
+    constructor; [|constructor]. cbn [m_view_refs Ideal]. destruct (m_view_refs m) eqn:Ev; [apply item_ok_refl|].
+    rewrite view_item_eq; [apply item_ok_refl|]. destruct Hview as [H | H]; [discriminate|].
+    unfold no_view_ref_targets in H. rewrite forallb_forall in H. specialize (H _ Hpw). cbn [fst snd] in H.
+    rewrite forallb_forall in H. apply (H _ Hi).
+Qed.
+
+Theorem go_vs_ideal_proved : Forall2 item_ok (compile_items a Ideal) (compile_items a m).
+Proof.
+  unfold compile_items. apply Forall2_flat_map. intros [p w] Hpw. cbn [fst snd]. unfold ws_items.
+  constructor.
+  - unfold ws_item, acl_repeat. cbn [m_acl_repeat Ideal]. rewrite repeat_list_1. cbn [item_ok]. repeat split; auto.
+    destruct (m_acl_repeat m); [eexists; reflexivity | exists O; rewrite repeat_list_1; auto].
+  - apply Forall2_app; [apply Forall2_refl; apply item_ok_refl|].
+    apply Forall2_flat_map. intros i Hi. apply stmt_items_ok; auto.
+Qed.
+
+End GoVsIdeal.
+
+(* ------------------------------------------------------------------ part 3: the oracle accepts the model's own output *)
+
+Lemma list_eqb_refl {A} (e : A -> A -> bool) (Hr : forall x, e x x = true) l : list_eqb e l l = true.
+Proof. induction l; cbn; auto. rewrite Hr; auto. Qed.
+
+Lemma existsb_refl {A} (e : A -> A -> bool) (Hr : forall x, e x x = true) x l : In x l -> existsb (e x) l = true.
+Proof. intros H. apply existsb_exists. exists x; auto. Qed.
+
+Lemma set_eqb_refl {A} (e : A -> A -> bool) (Hr : forall x, e x x = true) l : set_eqb e l l = true.
+Proof.
+  unfold set_eqb. assert (H : forallb (fun x => existsb (e x) l) l = true).
+  { apply forallb_forall. intros x Hx. apply existsb_refl; auto. }
+  rewrite H; auto.
+Qed.
+
+Lemma opt_eqb_refl {A} (e : A -> A -> bool) (Hr : forall x, e x x = true) o : opt_eqb e o o = true.
+Proof. destruct o; cbn; auto. Qed.
+
+Lemma qname_eqb_refl q : qname_eqb q q = true.
+Proof. apply qname_eqb_eq; auto. Qed.
+Lemma bool_eqb_refl b : bool_eqb b b = true.
+Proof. destruct b; auto. Qed.
+Lemma op_eqb_refl o : op_eqb o o = true.
+Proof. destruct o; auto. Qed.
+Lemma tkind_eqb_refl k : tkind_eqb k k = true.
+Proof. destruct k; auto. Qed.
+Lemma dkind_eqb_refl k : dkind_eqb k k = true.
+Proof. destruct k; auto. Qed.
+Lemma fkind_eqb_refl k : fkind_eqb k k = true.
+Proof. destruct k; auto. Qed.
+Lemma scope_eqb_refl k : scope_eqb k k = true.
+Proof. destruct k; auto. Qed.
+
+Lemma fdef_eqb_refl f : fdef_eqb f f = true.
+Proof.
+  unfold fdef_eqb. rewrite String.eqb_refl, dkind_eqb_refl, !bool_eqb_refl.
+  rewrite (opt_eqb_refl N.eqb N.eqb_refl), (opt_eqb_refl String.eqb String.eqb_refl).
+  rewrite (opt_eqb_refl _ (set_eqb_refl _ qname_eqb_refl)). reflexivity.
+Qed.
+Lemma cdef_eqb_refl c : cdef_eqb c c = true.
+Proof. unfold cdef_eqb. rewrite String.eqb_refl, qname_eqb_refl, !N.eqb_refl. reflexivity. Qed.
+Lemma udef_eqb_refl u : udef_eqb u u = true.
+Proof. unfold udef_eqb. rewrite String.eqb_refl, (set_eqb_refl _ String.eqb_refl). reflexivity. Qed.
+Lemma flt_eqb_refl f : flt_eqb f f = true.
+Proof.
+  destruct f; cbn; rewrite ?fkind_eqb_refl, ?qname_eqb_refl, ?(set_eqb_refl _ qname_eqb_refl), ?String.eqb_refl; auto.
+Qed.
+Lemma rule_eqb1_refl r : rule_eqb1 r r = true.
+Proof.
+  unfold rule_eqb1. rewrite bool_eqb_refl, flt_eqb_refl, (list_eqb_refl _ String.eqb_refl), qname_eqb_refl. reflexivity.
+Qed.
+Lemma event_eqb_refl e : event_eqb e e = true.
+Proof. unfold event_eqb. rewrite (list_eqb_refl _ op_eqb_refl), flt_eqb_refl. reflexivity. Qed.
+
+Lemma item_sim_refl c i : (forall q ab anc d u acl, i <> ItWs q ab anc d u acl) -> item_sim c i i = true.
+Proof.
+  intros Hn. destruct i; cbn;
+    rewrite ?qname_eqb_refl, ?tkind_eqb_refl, ?bool_eqb_refl, ?(list_eqb_refl _ fdef_eqb_refl), ?(list_eqb_refl _ cdef_eqb_refl),
+      ?(set_eqb_refl _ udef_eqb_refl), ?N.eqb_refl, ?(opt_eqb_refl _ qname_eqb_refl), ?(list_eqb_refl _ event_eqb_refl),
+      ?(set_eqb_refl _ qname_eqb_refl), ?Z.eqb_refl, ?(list_eqb_refl _ scope_eqb_refl), ?(list_eqb_refl _ op_eqb_refl),
+      ?flt_eqb_refl, ?String.eqb_refl; auto.
+  exfalso. eapply Hn; eauto.
+Qed.
+
+(* ---- ACL: normalised operation lists, repetition ---- *)
+
+Lemma mem_op_all o : mem_op o all_ops = true.
+Proof. destruct o; reflexivity. Qed.
+
+Lemma op_eqb_eq x y : op_eqb x y = true -> x = y.
+Proof. destruct x, y; cbn; congruence. Qed.
+
+Lemma mem_op_filter (P : op -> bool) o L : mem_op o (filter P L) = mem_op o L && P o.
+Proof.
+  unfold mem_op. induction L as [|x r IH]; cbn; auto.
+  destruct (P x) eqn:Ep; cbn; rewrite IH.
+  - destruct (op_eqb o x) eqn:E; cbn; auto. apply op_eqb_eq in E. subst. rewrite Ep. auto.
+  - destruct (op_eqb o x) eqn:E; cbn; auto. apply op_eqb_eq in E. subst. rewrite Ep.
+    rewrite andb_false_r. auto.
+Qed.
+
+Lemma norm_ops_idem l : norm_ops (norm_ops l) = norm_ops l.
+Proof.
+  unfold norm_ops at 1 3. apply filter_ext. intros o. unfold norm_ops. rewrite mem_op_filter, mem_op_all. auto.
+Qed.
+
+Lemma norm_ops_single o : norm_ops [o] = [o].
+Proof. destruct o; reflexivity. Qed.
+
+Definition rule_valid (r : rule) : bool := list_eqb op_eqb (r_ops r) (norm_ops (r_ops r)).
+
+Lemma ops_refl_eq l : l = norm_ops l -> list_eqb op_eqb l (norm_ops l) = true.
+Proof. intros <-. apply list_eqb_refl, op_eqb_refl. Qed.
+
+Lemma grant_rules_valid pn wq g : forallb rule_valid (grant_rules pn wq g) = true.
+Proof.
+  unfold grant_rules. destruct (g_what g) as [r | c | q | v cols | | | | [acts|] | t cols | t acts]; cbn [forallb];
+    unfold rule_valid; cbn [r_ops]; rewrite ?andb_true_r;
+    try (apply ops_refl_eq; reflexivity).
+  - apply ops_refl_eq. symmetry. apply norm_ops_idem.
+  - apply forallb_forall. intros r Hr. apply in_map_iff in Hr as (o & <- & _). cbn [r_ops].
+    apply ops_refl_eq. symmetry. apply norm_ops_single.
+Qed.
+
+Lemma ops_valid_app l1 l2 : ops_valid (l1 ++ l2) = ops_valid l1 && ops_valid l2.
+Proof. unfold ops_valid. apply forallb_app. Qed.
+
+Lemma ops_valid_flat_map {A} (f : A -> list rule) l : (forall x, ops_valid (f x) = true) -> ops_valid (flat_map f l) = true.
+Proof. intros H. induction l; cbn; auto. rewrite ops_valid_app, H, IHl. auto. Qed.
+
+Lemma acl_block_valid pn w : ops_valid (acl_block pn w) = true.
+Proof.
+  unfold acl_block. rewrite ops_valid_app, !ops_valid_flat_map; auto; intros; apply grant_rules_valid.
+Qed.
+
+Lemma ops_valid_repeat l n : ops_valid l = true -> ops_valid (repeat_list l n) = true.
+Proof. intros H. induction n; cbn; auto. rewrite ops_valid_app, H, IHn. auto. Qed.
+
+Lemma acl_eqb_refl l : ops_valid l = true -> acl_eqb l l = true.
+Proof.
+  intros H. unfold acl_eqb. rewrite H. cbn [andb]. apply forallb_forall. intros o _.
+  apply list_eqb_refl, rule_eqb1_refl.
+Qed.
+
+Lemma repeat_list_nil {A} n : @repeat_list A [] n = [].
+Proof. induction n; cbn; auto. Qed.
+
+Lemma repeat_list_length {A} (l : list A) n : List.length (repeat_list l n) = n * List.length l.
+Proof. induction n; cbn; auto. rewrite app_length, IHn. auto. Qed.
+
+Lemma acl_power_repeat l k : ops_valid l = true -> acl_power l (repeat_list l (S k)) = true.
+Proof.
+  intros H. unfold acl_power. apply existsb_exists. destruct l as [|r0 l0] eqn:El.
+  - exists 1. rewrite !repeat_list_nil. split; [cbn; auto | reflexivity].
+  - rewrite <- El in *. exists (S k). split.
+    + apply in_seq. rewrite repeat_list_length. subst l. cbn [List.length]. lia.
+    + apply acl_eqb_refl. apply ops_valid_repeat; auto.
+Qed.
+
+Lemma item_ok_sim i g : (forall q ab anc d u acl, i = ItWs q ab anc d u acl -> ops_valid acl = true) ->
+  item_ok i g -> item_sim acl_power i g = true.
+Proof.
+  intros Hv H. destruct i; cbn in H; try (subst g; apply item_sim_refl; intros; discriminate).
+  destruct g; try discriminate. destruct H as (-> & -> & -> & -> & -> & k & ->). cbn.
+  rewrite qname_eqb_refl, bool_eqb_refl, !(set_eqb_refl _ qname_eqb_refl), (opt_eqb_refl _ qname_eqb_refl).
+  cbn [andb]. apply acl_power_repeat. eapply Hv; eauto.
+Qed.
+
+Lemma item_ok_key i g : item_ok i g -> item_key i = item_key g.
+Proof.
+  destruct i; cbn; try (intros <-; reflexivity). destruct g; try discriminate. intros (-> & _). reflexivity.
+Qed.
+
+Lemma Forall2_keys l1 l2 : Forall2 item_ok l1 l2 -> map item_key l1 = map item_key l2.
+Proof. induction 1; cbn; auto. f_equal; auto. apply item_ok_key; auto. Qed.
+
+Lemma NoDup_nodup_b l : NoDup l -> nodup_b qname_eqb l = true.
+Proof.
+  induction 1 as [|x r Hnot Hn IH]; cbn; auto. rewrite IH, andb_true_r. apply negb_true_iff.
+  destruct (existsb (qname_eqb x) r) eqn:E; auto. apply existsb_exists in E as (y & Hy & Ey).
+  apply qname_eqb_eq in Ey. subst. contradiction.
+Qed.
+
+Lemma Forall2_len {A B} (R : A -> B -> Prop) l1 l2 : Forall2 R l1 l2 -> List.length l1 = List.length l2.
+Proof. induction 1; cbn; auto. Qed.
+
+Lemma Forall2_dump_match exp obs :
+  Forall2 (fun i g => item_sim acl_power i g = true) exp obs -> NoDup (map item_key obs) ->
+  dump_match acl_power exp obs = true.
+Proof.
+  intros HF Hn. unfold dump_match. rewrite (NoDup_nodup_b _ Hn), andb_true_r.
+  assert (H1 : forallb (fun e => existsb (item_sim acl_power e) obs) exp = true).
+  { clear Hn. induction HF as [|i g l1 l2 Hs HF IH]; cbn; auto. rewrite Hs. cbn.
+    eapply forallb_forall. intros e He. rewrite forallb_forall in IH. rewrite (IH _ He). apply orb_true_r. }
+  assert (H2 : forallb (fun o => existsb (fun e => item_sim acl_power e o) exp) obs = true).
+  { clear Hn H1. induction HF as [|i g l1 l2 Hs HF IH]; cbn; auto. rewrite Hs. cbn.
+    eapply forallb_forall. intros o Ho. rewrite forallb_forall in IH. rewrite (IH _ Ho). apply orb_true_r. }
+  rewrite H1, H2. cbn. apply Nat.eqb_eq. eapply Forall2_len; eauto.
+Qed.
+
+Lemma Forall2_impl_in {A B} (R S : A -> B -> Prop) l1 l2 :
+  (forall x y, In x l1 -> R x y -> S x y) -> Forall2 R l1 l2 -> Forall2 S l1 l2.
+Proof.
+  intros H HF. induction HF; constructor.
+  - apply H; [left; auto | auto].
+  - apply IHHF. intros; apply H; [right; auto | auto].
+Qed.
+
+(* the ACL of every workspace item of the spec is made of normalised rules *)
+Lemma ideal_ws_acl_valid a it q ab anc d u acl :
+  In it (compile_items a Ideal) -> it = ItWs q ab anc d u acl -> ops_valid acl = true.
+Proof.
+  intros Hin E. unfold compile_items in Hin. apply in_flat_map in Hin as ([p w] & _ & Hin). cbn [fst snd] in Hin.
+  unfold ws_items in Hin. destruct Hin as [Hin | Hin].
+  - rewrite <- Hin in E. unfold ws_item in E. inversion E; subst. rewrite app_nil_r. apply acl_block_valid.
+  - subst it. exfalso. apply in_app_iff in Hin as [Hin | Hin].
+    + destruct (w_abstract w); [destruct Hin|]. destruct Hin as [Hin | []]. discriminate.
+    + apply in_flat_map in Hin as (i & _ & Hin).
+      destruct i as [t | n ys | v | x | f | n pub | r | l | g | n]; cbn in Hin;
+        try (destruct Hin as [Hin | []]; discriminate); try (destruct Hin; fail).
+      unfold table_items in Hin. destruct (chain a (fuel0 a) (p_name p) t) as [[b ls]|]; [|destruct Hin].
+      destruct Hin as [Hin | Hin]; [discriminate|]. apply in_map_iff in Hin as (t' & Hin & _). discriminate.
+Qed.
+
+Lemma item_ok_uniq i g : item_ok i g -> uniq_names_ok g = uniq_names_ok i.
+Proof. destruct i; cbn; try (intros <-; reflexivity). destruct g; try discriminate. reflexivity. Qed.
+
+Lemma Forall2_uniq l1 l2 : Forall2 item_ok l1 l2 -> forallb uniq_names_ok l1 = true -> forallb uniq_names_ok l2 = true.
+Proof.
+  induction 1 as [|i g r1 r2 Hok HF IH]; cbn; auto. rewrite (item_ok_uniq _ _ Hok).
+  intros H. apply andb_true_iff in H as [-> H]. auto.
+Qed.
+
+(* the oracle accepts what a compiler of mode m yields on a well-formed schema, whenever at each of
+   the three points the compiler does what the spec does or the schema avoids the shape *)
+Theorem satisfies_model_output_proved a m :
+  wf a = true ->
+  (m_uniq_per_type m = true \/ no_unique_collision a m = true) ->
+  (m_nested_inherit m = true \/ no_nested_user_inherit a = true) ->
+  (m_view_refs m = true \/ no_view_ref_targets a = true) ->
+  exists d, compile a m = Some d /\ satisfies (Trace a (render a) (Compiled d true true)) = true.
+Proof.
+  intros Hwf Hc Hn Hv. exists (compile_items a m).
+  pose proof (go_vs_ideal_proved a m Hc Hn Hv) as HF.
+  destruct (wf_parts a Hwf) as (Hkeys & _ & Hu).
+  split.
+  - unfold compile, accepts. rewrite Hwf. unfold no_unique_collision in *. rewrite (Forall2_uniq _ _ HF Hu). reflexivity.
+  - unfold satisfies. cbn [tr_ast tr_out]. unfold compile, accepts. rewrite Hwf, Hu. cbn [andb]. rewrite !andb_true_r.
+    apply Forall2_dump_match.
+    + eapply Forall2_impl_in; [|exact HF]. intros i g Hi Hok. apply item_ok_sim; auto.
+      intros. eapply ideal_ws_acl_valid; eauto.
+    + rewrite <- (Forall2_keys _ _ HF). auto.
+Qed.
+
+(* the link theorem for the compiler as it is: no hypothesis on the schema beyond well-formedness,
+   given that the source does the three things the way the spec does (side conditions on Gen/Params.v) *)
+Theorem go_meets_spec_proved :
+  parser_uniques_numbered_per_type = true -> parser_nested_tables_inherit = true -> parser_view_refs_recorded = true ->
+  forall a, wf a = true ->
+  exists d, compile a Go = Some d /\ satisfies (Trace a (render a) (Compiled d true true)) = true.
+Proof.
+  intros H1 H2 H3 a Hwf. apply satisfies_model_output_proved; auto; left; cbn; auto.
+Qed.
+
+Theorem go_item_for_item_proved :
+  parser_uniques_numbered_per_type = true -> parser_nested_tables_inherit = true -> parser_view_refs_recorded = true ->
+  forall a, Forall2 item_ok (compile_items a Ideal) (compile_items a Go).
+Proof. intros H1 H2 H3 a. apply go_vs_ideal_proved; left; cbn; auto. Qed.
